@@ -218,9 +218,11 @@ impl TryFrom<Vec<HeaderField>> for Header {
     type Error = HeaderError;
     fn try_from(headers: Vec<HeaderField>) -> Result<Self, Self::Error> {
         // `HeaderMap` holds a bounded number of entries; the panicking constructors must not
-        // be reachable from a field section sent by the peer.
-        let mut fields = HeaderMap::try_with_capacity(headers.len())
-            .map_err(|e| HeaderError::InvalidRequest(e.into()))?;
+        // be reachable from a field section sent by the peer. The number of fields is only an
+        // upper bound for the number of entries (pseudo-header fields are not stored in the
+        // map, repeated names share an entry): when the map cannot be sized for it, start
+        // small and let `try_append` report a map that really is full.
+        let mut fields = HeaderMap::try_with_capacity(headers.len()).unwrap_or_default();
         let mut pseudo = Pseudo::default();
 
         for field in headers.into_iter() {
